@@ -23,8 +23,19 @@ for d in sorted(glob.glob(os.path.join(ROOT, "seeded", "*", ""))):
     others = [k for k, v in r["checks"].items() if k != pid and v.get("fired")]
     det = own.get("detail", "")[:80].replace("|", "/").replace("`", "'")
     caught = f"{pid}: {own.get('kind', 'not run')}" + (f" (`{det}`)" if det else "") + (" ; also " + ",".join(others) if others else "")
-    rows.append(f"| {m['id']} | {first[:120].replace('|', '/')} | {caught} | {notes.get(m['id'], 'caught as built')} |")
-table = "| change | site / clause | caught by (quick tier) | note |\n|---|---|---|---|\n" + "\n".join(rows)
+    pl = ""
+    pp = d + "prooflevel.json"
+    if os.path.exists(pp):
+        q = json.load(open(pp))
+        bits = []
+        if q.get("broken_modules"):
+            bits.append("breaks " + ", ".join(q["broken_modules"]))
+        if q.get("fail_closed"):
+            primary = [k for k, v in q["fail_closed"].items() if "failed (" not in v]
+            bits.append("fails closed: " + ", ".join(primary or sorted(q["fail_closed"])))
+        pl = "; ".join(bits) or "passes (outside the generated parts)"
+    rows.append(f"| {m['id']} | {first[:120].replace('|', '/')} | {caught} | {pl} | {notes.get(m['id'], 'caught as built')} |")
+table = "| change | site / clause | caught by (quick tier) | generated parts alone (wave 4) | note |\n|---|---|---|---|---|\n" + "\n".join(rows)
 p = os.path.join(ROOT, "DESIGN.md")
 s = open(p).read()
 b, e = "<!-- SEEDED-TABLE-BEGIN -->", "<!-- SEEDED-TABLE-END -->"
